@@ -320,7 +320,98 @@ def run(ctx):
         odd_kernel_guard(ctx, "C03.odd", p, K, f"autoarray.structures.arrays.kernel_2d:Kernel2D.{m}",
                          [lambda k: S_(f"self.mask.shape[{k}]"), sn("self.shape_native"), lambda k: S_(f"self.native.shape[{k}]"), lambda k: S_(f"self.shape[{k}]")], {"KernelException"})
     odd_kernel_guard(ctx, "C03.odd", p, K, "autoarray.mask.derive.mask_2d:DeriveMask2D.blurring_from", [sn("kernel_shape_native")], {"MaskException", "KernelException"})
+    wrapper_rule(ctx, p)
+    simulate_rule(ctx, p)
     whole_frame_rule(ctx, p)
+
+
+def wrapper_rule(ctx, p):
+    """the public methods of Convolver hand their inputs, and the convolver's own tables, to the matching kernel on EVERY path and return its result untouched"""
+    rule = "C03.wrapper"
+    ctx.rule(rule, "convolve_image / convolve_image_no_blurring / convolve_mapping_matrix: one kernel call per path with the convolver's own tables bound to the same-named parameters and the slim inputs; "
+                   "every return is the kernel's result (images wrapped on the convolver's mask); no shortcut path")
+    img = {f"image_frame_1d_{k}": f"self.image_frame_1d_{k}" for k in ("indexes", "kernels", "lengths")}
+    blr = {f"blurring_frame_1d_{k}": f"self.blurring_frame_1d_{k}" for k in ("indexes", "kernels", "lengths")}
+    table = [
+        ("convolve_image", "convolve_jit", {**img, **blr, "image_1d_array": ("image.slim", "image"), "blurring_1d_array": ("blurring_image.slim", "blurring_image")}, True),
+        ("convolve_image_no_blurring", "convolve_no_blurring_jit", {**img, "image_1d_array": ("image.slim", "image")}, True),
+        ("convolve_mapping_matrix", "convolve_matrix_jit", {**img, "mapping_matrix": ("mapping_matrix",)}, False),
+    ]
+    cls = p.cls(f"{CV}:Convolver")
+    for meth, kern, want, wrapped in table:
+        m = cls.methods.get(meth)
+        k = cls.methods.get(kern)
+        if m is None or k is None:
+            raise AnchorMissing(f"Convolver.{meth} / {kern}")
+        calls = [c for c in m.calls() if isinstance(c.func, ast.Attribute) and c.func.attr == kern and norm_text(c.func.value) == m.params[0]]
+        ok = len(calls) == 1
+        det = f"{len(calls)} call(s) of {kern}"
+        if ok:
+            b = {a: norm_text(wire.strip_np_array(wire.resolve_local(m, v))) for a, v in wire.kw(calls[0], k).items()}
+            bad = [a for a, w in want.items() if (b.get(a) not in w if isinstance(w, tuple) else b.get(a) != w)]
+            extra = [a for a in b if a not in want and a != m.params[0]]
+            ok = not bad and not extra
+            det = f"mis-bound: {[(a, b.get(a)) for a in bad]}" if bad else f"{len(b)} arguments bound to the convolver's own tables and the inputs"
+            # every return is the kernel's result
+            res = None
+            for n in m.body_nodes():
+                if isinstance(n, ast.Assign) and n.value is calls[0] and isinstance(n.targets[0], ast.Name):
+                    res = n.targets[0].id
+            for r in wire.returns_of(m):
+                v = r.value
+                if wrapped:
+                    good = isinstance(v, ast.Call) and norm_text(v.func) == "Array2D" and {a: norm_text(x) for a, x in wire.kw(v).items()} == {"values": res, "mask": f"{m.params[0]}.mask"} if res else                         (isinstance(v, ast.Call) and norm_text(v.func) == "Array2D" and wire.kw(v).get("values") is calls[0] and norm_text(wire.kw(v).get("mask")) == f"{m.params[0]}.mask")
+                else:
+                    good = v is calls[0] or (res is not None and norm_text(v) == res)
+                if not good:
+                    ok = False
+                    det = f"return {norm_text(v)[:70]} is not the result of {kern}"
+            # no path avoids the call except by raising
+            br = wire.enclosing_branches(m, calls[0])
+            if br:
+                ok = False
+                det = f"{kern} is called only under {[norm_text(i.test)[:50] for i, _ in br]}"
+        ctx.ob(rule, f"Convolver.{meth}", ok, where=m, node=calls[0] if calls else m.node, construct=det,
+               message=f"{meth} must return, on every path, the result of {kern} applied to its (slim) inputs with the convolver's own frame tables; a shortcut path replaces the operator by something else for some inputs")
+
+
+def simulate_rule(ctx, p):
+    """the dataset a simulator returns, and every dataset derived from it, is fitted with the PSF that generated it"""
+    rule = "C03.simulate"
+    ctx.rule(rule, "the simulator convolves with self.psf and returns an Imaging carrying that very PSF (no re-normalisation); apply_mask / apply_noise_scaling / apply_over_sampling pass the PSF and "
+                   "the normalisation choice on; the dataset's convolver is built from its own mask and PSF")
+    sim = p.func("autoarray.dataset.imaging.simulator:SimulatorImaging.via_image_from")
+    s_ = sim.params[0]
+    conv = [c for c in sim.calls() if isinstance(c.func, ast.Attribute) and c.func.attr == "convolved_array_from"]
+    ok = len(conv) == 1 and norm_text(conv[0].func.value) == f"{s_}.psf" and not wire.enclosing_branches(sim, conv[0])
+    ctx.ob(rule, "simulator convolves with its own PSF", ok, where=sim, node=conv[0] if conv else sim.node, construct=norm_text(conv[0])[:80] if conv else "no convolution",
+           message="the simulated image must be convolved with the simulator's own PSF, unconditionally")
+    rets = [r for r in wire.returns_of(sim) if isinstance(r.value, ast.Call) and norm_text(r.value.func) == "Imaging"]
+    ok = len(rets) == 1
+    det = ""
+    if ok:
+        kw = wire.kwtext(rets[0].value)
+        det = str({k: kw.get(k) for k in ("psf", "use_normalized_psf")})
+        ok = kw.get("psf") == f"{s_}.psf" and kw.get("use_normalized_psf") == "False"
+    ctx.ob(rule, "simulated dataset carries the simulation PSF", ok, where=sim, node=rets[0] if rets else sim.node, construct=det,
+           message="the Imaging returned by the simulator must carry self.psf unchanged (use_normalized_psf=False; the constructor would otherwise re-normalise it), or the generating image no longer fits its own data")
+    ds = p.cls("autoarray.dataset.imaging.dataset:Imaging")
+    n = 0
+    for name in ("apply_mask", "apply_noise_scaling", "apply_over_sampling"):
+        m = ds.methods.get(name)
+        if m is None:
+            raise AnchorMissing(f"Imaging.{name}")
+        for c in [c for c in m.calls() if norm_text(c.func) in ("Imaging", "self.__class__", "type(self)")]:
+            n += 1
+            kw = wire.kwtext(c)
+            ok = kw.get("psf") == f"{m.params[0]}.psf" and kw.get("use_normalized_psf") == f"{m.params[0]}.use_normalized_psf"
+            ctx.ob(rule, f"Imaging.{name} keeps the PSF", ok, where=m, node=c, construct=str({k: kw.get(k) for k in ("psf", "use_normalized_psf")}),
+                   message="a dataset derived from another must carry the same PSF and the same normalisation choice (the constructor default re-normalises)")
+    ctx.require_count(rule, "derived Imaging constructions", n, 3)
+    cv = ds.methods.get("convolver")
+    rets = wire.returns_of(cv) if cv else []
+    ok = len(rets) == 1 and isinstance(rets[0].value, ast.Call) and norm_text(rets[0].value.func) == "Convolver" and wire.kwtext(rets[0].value) == {"mask": "self.mask", "kernel": "self.psf"}
+    ctx.ob(rule, "Imaging.convolver", ok, where=cv, node=rets[0] if rets else cv.node, construct=norm_text(rets[0].value) if rets else "", message="the dataset's convolver must be built from its own mask and its own PSF")
 
 
 def whole_frame_rule(ctx, p):
@@ -359,6 +450,12 @@ def whole_frame_rule(ctx, p):
 
 _M = "autoarray/operators/convolver.py"
 CONTROLS = [
+    Control("all-zero image shortcut skips the blurring image (seed C03/3)", _M, in_func("Convolver.convolve_image", "        convolved_image = self.convolve_jit(\n            image_1d_array=np.array(image.slim),", "        image_1d_array = np.array(image.slim)\n\n        if not image_1d_array.any():\n            return Array2D(values=np.zeros(image_1d_array.shape), mask=self.mask)\n\n        convolved_image = self.convolve_jit(\n            image_1d_array=image_1d_array,"), "C03.wrapper"),
+    Control("(1, 1) kernel shortcut returns the matrix unblurred (seed C03/4)", _M, in_func("Convolver.convolve_mapping_matrix", "        return self.convolve_matrix_jit(", "        if self.kernel_max_size == 1:\n            return mapping_matrix\n\n        return self.convolve_matrix_jit("), "C03.wrapper"),
+    Control("simulated dataset re-normalises its PSF (the defect fixed in d319173)", "autoarray/dataset/imaging/simulator.py", in_func("SimulatorImaging.via_image_from", "            use_normalized_psf=False,\n", ""), "C03.simulate"),
+    Control("masked dataset forgets the PSF normalisation choice", "autoarray/dataset/imaging/dataset.py", in_func("Imaging.apply_mask", "            use_normalized_psf=self.use_normalized_psf,\n", ""), "C03.simulate"),
+    Control("blurring tables swapped for image tables", _M, in_func("Convolver.convolve_image", "blurring_frame_1d_kernels=self.blurring_frame_1d_kernels,", "blurring_frame_1d_kernels=self.image_frame_1d_kernels,"), "C03.wrapper"),
+    Control("twin: slim image taken into a local first", _M, in_func("Convolver.convolve_image", "        convolved_image = self.convolve_jit(\n            image_1d_array=np.array(image.slim),", "        image_1d_array = np.array(image.slim)\n        convolved_image = self.convolve_jit(\n            image_1d_array=image_1d_array,"), None, twin=True),
     Control("half-widths swapped between axes", _M, in_func("Convolver.frame_at_coordinates_jit", "half_x = int(kernel_shape_native[0] / 2)", "half_x = int(kernel_shape_native[1] / 2)"), "C03.frame"),
     Control("correlation instead of convolution", _M, in_func("Convolver.frame_at_coordinates_jit", "kernel_frame[count] = kernel_2d[i, j]",
                                                              "kernel_frame[count] = kernel_2d[kernel_shape_native[0] - 1 - i, kernel_shape_native[1] - 1 - j]"), "C03.frame"),
